@@ -60,6 +60,9 @@ func genC17b(rt *rapid.T) c17bCase {
 		switch k := rapid.IntRange(0, 11).Draw(rt, "opK2"); {
 		case k <= 3:
 			op.Kind, op.Set = "set", rapid.IntRange(0, ns-1).Draw(rt, "set2")
+			if rapid.IntRange(0, 5).Draw(rt, "badset") == 0 {
+				op.Kind = "badset" // the same routes followed by one that validation refuses: the call fails and must change nothing
+			}
 		case k == 4:
 			op.Kind = "drop"
 		case k <= 7:
@@ -411,6 +414,14 @@ func runC17b(t *testing.T, c c17bCase, tr *vw.Trace) (viol *vw.Violation) {
 					return
 				}
 				last = next
+			case "badset":
+				advs := mkAdvs(c.Sets[op.Set%len(c.Sets)])
+				_, v6, _ := net.ParseCIDR("2001:db8::1/128")
+				advs = append(advs, &bgp.Advertisement{Prefix: v6})
+				if err := s.Set(advs...); err == nil {
+					return // accepted: not the situation this action is about
+				}
+				tr.Class("refused-set")
 			case "drop":
 				if cur := p.current(); cur != nil {
 					p.mu.Lock()
